@@ -27,3 +27,4 @@ func verifAnd(a, b bool) bool
 func verifOr(a, b bool) bool
 func verifImplies(a, b bool) bool
 func verifParam(name string) int
+func verifPreemptBound(n int)
